@@ -35,7 +35,7 @@ PLAN = {
     "C16": {"steps": [codec(part="dynamic"), lang()]},
     "C17": {"steps": [codec()]},
     "C09": {"steps": [net(), net(variant="race", tiers=["thorough"], scale={"thorough": 0.05})]},
-    "C11": {"steps": [net()]},
+    "C11": {"steps": [net(address_space_kb=12 * 1024 * 1024)]},
     "C18": {"steps": [net(), net(variant="race")]},
     "C19": {"steps": [net(), net(variant="race", tiers=["thorough"])]},
     "C20": {"steps": [net(), net(variant="race", tiers=["thorough"])]},
